@@ -18,7 +18,7 @@ impl Expr {
 pub struct Block { pub id: int, pub symbols: SymbolTable }
 pub struct For { pub symbols: SymbolTable, pub item: Token, pub iter: Expr, pub body: Block }
 pub struct While { pub cond: Expr, pub body: Block }
-pub enum Ev { Begin, End, Declare(int), Define(int), ResolveExpr(int), ResolveBlock(int) }
+pub enum Ev { Begin, End, Declare(int), Define(int), ResolveExpr(int), ResolveBlock(int), ResolveAtom(int) }
 pub struct Resolver { pub log: Ghost<Seq<Ev>> }
 pub struct ScopeBody { }
 impl ScopeBody { #[verifier::external_body] pub fn verif_run(self, r: &mut Resolver) { } }
@@ -28,6 +28,7 @@ impl Resolver {
   #[verifier::external_body] pub fn declare_variable(&mut self, t: &Token) ensures final(self).log@ == old(self).log@.push(Ev::Declare(t.id)) { }
   #[verifier::external_body] pub fn define_variable(&mut self, t: &Token) ensures final(self).log@ == old(self).log@.push(Ev::Define(t.id)) { }
   #[verifier::external_body] pub fn expr(&mut self, e: &Expr) ensures final(self).log@ == old(self).log@.push(Ev::ResolveExpr(e.id)) { }
+  #[verifier::external_body] pub fn atom(&mut self, a: &Atom) ensures final(self).log@ == old(self).log@.push(Ev::ResolveAtom(a.id)) { }
   #[verifier::external_body] pub fn block(&mut self, b: &Block) ensures final(self).log@ == old(self).log@.push(Ev::ResolveBlock(b.id)) { }
 }
 
@@ -37,3 +38,17 @@ pub struct Ternary { pub cond: Expr, pub then: Expr, pub else_: Expr }
 pub struct Binary { pub lhs: Expr, pub rhs: Expr }
 pub struct Unary { pub expr: Expr }
 pub struct Index { pub index: Expr }
+pub struct Atom { pub id: int }
+pub struct Assign { pub lhs: Atom, pub rhs: Expr }
+pub struct Send { pub lhs: Atom, pub rhs: Expr }
+pub struct AssignBinary { pub lhs: Atom, pub rhs: Expr }
+pub struct Launch { pub closure: Expr }
+pub struct Return { pub value: Option<Expr> }
+pub struct Raise { pub error: Expr }
+pub enum Else { If(Box<If>), Block(Block) }
+pub struct If { pub cond: Expr, pub body: Block, pub else_: Option<Else> }
+/// what resolving an if statement logs: condition, then the body in a scope of its own, then the else part likewise
+pub open spec fn if_evs(i: If) -> Seq<Ev> decreases i {
+  seq![Ev::ResolveExpr(i.cond.id), Ev::Begin, Ev::ResolveBlock(i.body.id), Ev::End]
+    + (match i.else_ { None => Seq::<Ev>::empty(), Some(Else::Block(b)) => seq![Ev::Begin, Ev::ResolveBlock(b.id), Ev::End], Some(Else::If(n)) => if_evs(*n) })
+}
